@@ -439,8 +439,10 @@ package netty
 // "cas c.running", "store c.running", "load c.running", "cas c.closed", "load c.closed",
 // "lock c.writeLock"/"unlock c.writeLock", and the calls on c.transport / c.executor / c.cancel.
 //@ property C01 C02 C05 C06 C07 C09 C10 C11 C12 C18
+//@ property C12
 //@ field channel.closed atomic monotone
 //@ field channel.running atomic
+//@ property C01 C02 C05 C06 C07 C09 C10 C11 C18
 //@ assume iface Executor.Exec
 //@   requires recv != nil
 //@ assume functype context.CancelFunc
@@ -753,3 +755,48 @@ package netty
 // touches it again (it obtains a new one in the next iteration)
 //@ property C10
 //@ nouse (*channel).ReadFrom: after "write1" argument 1
+
+// ---------------------------------------------------------------------------
+// C12: protection discipline for every field of the concurrently usable objects (an obligation
+// per load/store anywhere in the repository).
+//@ property C12
+//@ field channel.* constructed_by newChannelWith
+//@ field channel.id immutable newChannelWith
+//@ field channel.ctx immutable newChannelWith
+//@ field channel.cancel immutable newChannelWith
+//@ field channel.transport immutable newChannelWith
+//@ field channel.executor immutable newChannelWith
+//@ field channel.pipeline immutable newChannelWith
+//@ field channel.writeQueue immutable newChannelWith
+//@ field channel.untilWrite immutable newChannelWith
+//@ field channel.writeBuffers immutable newChannelWith
+//@ field channel.recycleBuffers immutable newChannelWith
+//@ field channel.closeErr published_by cancel Done
+//@ field channel.writeLock owned_by (*channel).Writev, (*channel).CtxWrite1, (*channel).CtxWritev, (*channel).write1
+// channel.attachment: outside the statement ("unsynchronised attachment access")
+
+//@ field channelHolder.* constructed_by NewChannelHolder
+//@ field channelHolder.channels guarded_by mutex
+
+//@ field readIdleHandler.* constructed_by ReadIdleHandler
+//@ lockwrapper (*readIdleHandler).withLock mutex w
+//@ lockwrapper (*readIdleHandler).withReadLock mutex r
+//@ field readIdleHandler.idleTime immutable ReadIdleHandler
+//@ field readIdleHandler.lastReadTime guarded_by mutex
+//@ field readIdleHandler.readTimer guarded_by mutex
+//@ field readIdleHandler.handlerCtx guarded_by mutex
+//@ field writeIdleHandler.* constructed_by WriteIdleHandler
+//@ lockwrapper (*writeIdleHandler).withLock mutex w
+//@ lockwrapper (*writeIdleHandler).withReadLock mutex r
+//@ field writeIdleHandler.idleTime immutable WriteIdleHandler
+//@ field writeIdleHandler.lastWriteTime guarded_by mutex
+//@ field writeIdleHandler.writeTimer guarded_by mutex
+//@ field writeIdleHandler.handlerCtx guarded_by mutex
+
+// listener: Sync (accept goroutine) writes, Close (any goroutine) reads: no lock exists
+//@ field listener.* constructed_by (*bootstrap).Listen
+//@ field listener.bs immutable (*bootstrap).Listen
+//@ field listener.url immutable (*bootstrap).Listen
+//@ field listener.option immutable (*bootstrap).Listen
+//@ field listener.acceptor owned_by (*listener).Sync
+//@ field listener.options owned_by (*listener).Sync
